@@ -31,13 +31,15 @@ ENTRY = {
             "sched/random", "sched/pingpong", "sched/blocks", "sched/last-first", "sched/first-only",
             "sched/released-by-quiescence-timer",       # a goroutine waited for a lock held by a parked one and the controller moved on
             "sched/background-goroutine-scheduled",     # background goroutines (index aggregation, sync handlers) were scheduled too
-            # control shapes that are generated whatever is listed as known (the excluded shapes are mapped onto them)
+            "contended/yes",
+            # shapes whose requests still run inside each other's instrumented windows
             "keyvalue/post-post-same-key/interleaved", "keyvalue/post-delete-same-key/interleaved", "keyvalue/post-post-two-keys/interleaved",
-            "dag/branch-newversion/interleaved", "dag/branch-branch-diff-names/interleaved", "dag/newinstance-diff-names/interleaved", "dag/commit-post",
-            "neuronjson/post-post-two-bodies/interleaved", "neuronjson/delete-delete",
-            "labelmap/merge-merge-disjoint/interleaved", "labelmap/cleave-cleave-same-body/interleaved", "labelmap/cleave-splitsv-same-body/interleaved",
             "labelmap/mutate-mutate-same-label/interleaved",
-            "annotation/post-post-disjoint/interleaved",
+            # shapes whose interleaving a lock of the code under test refuses (a goroutine blocked on a lock held by a parked one)
+            "annotation/post-post-same-block/contended", "annotation/post-delete-same-block/contended",
+            "labelmap/merge-merge-same-target/contended", "labelmap/merge-cleave-same-body/contended", "labelmap/cleave-cleave-same-body/contended",
+            "neuronjson/post-post-disjoint-fields/contended", "neuronjson/post-delete/contended",
+            "dag/newversion-newversion/contended", "dag/branch-branch-same-name/contended", "dag/newinstance-same-name/contended",
         ],
         "rule": "rapid-generated (scenario, schedule) pairs.  Scenario = family (keyvalue, dag, neuronjson, labelmap, annotation), a deterministic sequential setup on a "
                 "fresh repo, and 2-3 mutation requests that share a target on purpose (or are disjoint controls): keyvalue POST/DELETE key on one key or two keys, "
@@ -60,7 +62,7 @@ ENTRY = {
                 "once, parent/child links; neuronjson key vs all vs keys vs keyrange vs the stored value read through the storage API; labelmap listlabels, size, supervoxels, "
                 "sparsevol-size, index, mapping, maxlabel vs the label and supervoxel volumes, every mutation-log record decodes; annotation all-elements vs elements/<box> vs "
                 "tag/<t> vs label/<l> (both with and without relationships), relationship targets exist.  Non-trivial: scheduled case in which some goroutine ran while another "
-                "one was parked inside an instrumented read-modify-write window.  Distinct = hash of the case value.",
+                "one was parked inside an instrumented read-modify-write window (interleaved), or was blocked on a lock held by a parked one and passed over (contended: the schedule asked for the interleaving and the code under test refused it).  Distinct = hash of the case value.",
         "assumptions": [
             "the sequential behaviour of the real server is the reference (validated by C01/C05/C07/C08/C13/C16); a consistency violation that also shows in a sequential run is "
             "another property's subject and is not reported here (class sequential-run-inconsistent)",
@@ -70,7 +72,7 @@ ENTRY = {
             "not at every goroutine preemption point; the unscheduled mode and -race are the only probes of uninstrumented windows",
             "the quiescence / goroutine-state poll (2 ms, fallback 300 ms) and the 20 s watchdog only decide which schedule is explored or turn a case into a harness error; "
             "no verdict depends on time",
-            "one signature per family/shape: the 28 listed signatures stem from 6 root causes (findings.go); a listed shape is replaced by the family's disjoint control by construction",
+            "one signature per family/shape: the 28 signatures found on the unrepaired tree stem from 6 root causes (findings.go), all repaired by fix: commits; their replays run in every quick check",
         ],
     },
 }
